@@ -157,6 +157,10 @@ async fn side_conditions<S: Storage>(cluster: &Cluster<S>, when: &str, out: &mut
     }
 }
 
+/// The property speaks about operations issued within one forgiveness period (one hour) of
+/// each other: a history may contain at most one jump of this many minutes.
+const JUMP_MINUTES: u64 = 55;
+
 #[derive(Clone, Copy, Debug, PartialEq)]
 pub enum Scripted {
     Flush(usize),
@@ -198,9 +202,10 @@ pub struct ExecCfg {
     /// the last operation; the closing exchanges always complete. A failed exchange must
     /// not keep later, healthy exchanges from repairing.
     pub faulty_repairs: bool,
-    /// one more kind of extra event: every wall clock moves on by 61 minutes (more than the
-    /// forgiveness period), so that later stamps of an origin are more than an hour newer
-    /// than earlier ones a lagging or restarted node has yet to learn through repair
+    /// one more kind of extra event, at most once per execution: every wall clock moves on
+    /// by 55 minutes, so that later stamps of an origin are almost one forgiveness period
+    /// newer than earlier ones a lagging or restarted node has yet to learn through repair
+    /// (the whole history stays within one hour, as the property requires)
     pub time_jumps: bool,
     /// a sharp driver: events that always happen in the gap after operation i (before the
     /// explored extra events of that gap)
@@ -301,10 +306,11 @@ where
                 out.events.push(format!("node{d} is unreachable from the start (scripted)"));
                 datacake_rpc::verif::set_reachable(crate::world::node_addr(d as NodeId + 1), false);
             },
-            Scripted::Jump => wall.advance(std::time::Duration::from_secs(61 * 60)),
+            Scripted::Jump => wall.advance(std::time::Duration::from_secs(JUMP_MINUTES * 60)),
             _ => {},
         }
     }
+    let mut jumped = false;
     for (oi, op) in ops.iter().enumerate() {
         wall.tick();
         let skew = cfg.skew_minutes.get(op.node).copied().unwrap_or(0);
@@ -359,8 +365,8 @@ where
                     cluster.nodes.insert(r, fresh);
                 },
                 Scripted::Jump => {
-                    out.events.push("61 minutes pass (scripted)".to_string());
-                    wall.advance(std::time::Duration::from_secs(61 * 60));
+                    out.events.push("55 minutes pass (scripted)".to_string());
+                    wall.advance(std::time::Duration::from_secs(JUMP_MINUTES * 60));
                 },
                 Scripted::Down(d) => {
                     out.events.push(format!("node{d} becomes unreachable (scripted)"));
@@ -379,7 +385,7 @@ where
                 let n_ticks = n;
                 let n_repairs = n * (n - 1);
                 let n_restarts = if cfg.allow_restart { n } else { 0 };
-                let n_jumps = if cfg.time_jumps { 1 } else { 0 };
+                let n_jumps = if cfg.time_jumps && !jumped { 1 } else { 0 };
                 let c = chooser.borrow_mut().choose(1 + n_ticks + n_repairs + n_restarts + n_jumps);
                 if c == 0 {
                     break;
@@ -387,8 +393,9 @@ where
                 wall.tick();
                 let c = c - 1;
                 if c >= n_ticks + n_repairs + n_restarts {
-                    out.events.push("61 minutes pass".to_string());
-                    wall.advance(std::time::Duration::from_secs(61 * 60));
+                    jumped = true;
+                    out.events.push("55 minutes pass".to_string());
+                    wall.advance(std::time::Duration::from_secs(JUMP_MINUTES * 60));
                 } else if c < n_ticks {
                     out.events.push(format!("batch flush of node{c}"));
                     cluster.nodes[c].tick().await;
@@ -799,15 +806,15 @@ pub fn run(tier: Tier) -> i32 {
             let other = 1 - victim;
             for (name, script) in [
                 (
-                    "N=2, 2 operations, sharp driver: one node misses the first operation (unreachable, batch lost), 61 minutes pass, it receives the second one and restarts; <=2 deviations on top",
+                    "N=2, 2 operations, sharp driver: one node misses the first operation (unreachable, batch lost), 55 minutes pass, it receives the second one and restarts; <=2 deviations on top",
                     vec![vec![Scripted::Down(victim)], vec![Scripted::Flush(other), Scripted::Jump, Scripted::Back(victim)], vec![Scripted::Flush(other), Scripted::Restart(victim)]],
                 ),
                 (
-                    "N=2, 2 operations, sharp driver: one node misses the first operation, 61 minutes pass, it receives the second one (no restart); <=2 deviations on top",
+                    "N=2, 2 operations, sharp driver: one node misses the first operation, 55 minutes pass, it receives the second one (no restart); <=2 deviations on top",
                     vec![vec![Scripted::Down(victim)], vec![Scripted::Flush(other), Scripted::Jump, Scripted::Back(victim)], vec![Scripted::Flush(other)]],
                 ),
                 (
-                    "N=2, 3 operations (thinned), sharp driver: one node misses the first operation, 61 minutes pass, it receives the second, restarts, third operation; <=1 deviation on top",
+                    "N=2, 3 operations (thinned), sharp driver: one node misses the first operation, 55 minutes pass, it receives the second, restarts, third operation; <=1 deviation on top",
                     vec![vec![Scripted::Down(victim)], vec![Scripted::Flush(other), Scripted::Jump, Scripted::Back(victim)], vec![Scripted::Flush(other), Scripted::Restart(victim)], vec![]],
                 ),
             ] {
@@ -820,11 +827,11 @@ pub fn run(tier: Tier) -> i32 {
         let mut jumpy = two(false);
         jumpy.allow_unreachable_node = true;
         jumpy.time_jumps = true;
-        blocks.push(Block { name: "N=2, 2 operations, one node unreachable until a chosen moment, restarts, 61-minute jumps between and after operations, <=4 deviations", cfg: jumpy, histories: sequences(&al2, 2), bound: 4 });
+        blocks.push(Block { name: "N=2, 2 operations, one node unreachable until a chosen moment, restarts, 55-minute jumps between and after operations, <=4 deviations", cfg: jumpy, histories: sequences(&al2, 2), bound: 4 });
         let mut jumpy3 = two(false);
         jumpy3.allow_unreachable_node = true;
         jumpy3.time_jumps = true;
-        blocks.push(Block { name: "N=2, 3 operations (thinned), one node unreachable, restarts, 61-minute jumps, <=3 deviations", cfg: jumpy3, histories: sequences(&al2_thin, 3), bound: 3 });
+        blocks.push(Block { name: "N=2, 3 operations (thinned), one node unreachable, restarts, 55-minute jumps, <=3 deviations", cfg: jumpy3, histories: sequences(&al2_thin, 3), bound: 3 });
         let mut faulty = two(false);
         faulty.faulty_repairs = true;
         blocks.push(Block { name: "N=2, 1 operation, repair exchanges may lose any of their requests (also after the last operation), <=5 deviations", cfg: faulty, histories: sequences(&al2, 1), bound: 5 });
@@ -852,11 +859,11 @@ pub fn run(tier: Tier) -> i32 {
         blocks.push(Block { name: "N=2, 2 operations, one node unreachable until a chosen moment (it joins after deletes happened), <=2 deviations", cfg: lagging, histories: sequences(&al2, 2), bound: 2 });
         for (name, script) in [
             (
-                "N=2, 2 operations, sharp driver: node1 misses the first operation (unreachable, batch lost), 61 minutes pass, it receives the second one and restarts; <=1 deviation on top",
+                "N=2, 2 operations, sharp driver: node1 misses the first operation (unreachable, batch lost), 55 minutes pass, it receives the second one and restarts; <=1 deviation on top",
                 vec![vec![Scripted::Down(1)], vec![Scripted::Flush(0), Scripted::Jump, Scripted::Back(1)], vec![Scripted::Flush(0), Scripted::Restart(1)]],
             ),
             (
-                "N=2, 2 operations, sharp driver: node1 misses the first operation, 61 minutes pass, it receives the second one (no restart); <=1 deviation on top",
+                "N=2, 2 operations, sharp driver: node1 misses the first operation, 55 minutes pass, it receives the second one (no restart); <=1 deviation on top",
                 vec![vec![Scripted::Down(1)], vec![Scripted::Flush(0), Scripted::Jump, Scripted::Back(1)], vec![Scripted::Flush(0)]],
             ),
         ] {
@@ -868,7 +875,7 @@ pub fn run(tier: Tier) -> i32 {
         jumpy.allow_unreachable_node = true;
         jumpy.time_jumps = true;
         let al2_none = op_alphabet(2, &[Consistency::None]);
-        blocks.push(Block { name: "N=2, 2 operations (level None), one node unreachable until a chosen moment, restarts, 61-minute jumps between and after operations, <=3 deviations", cfg: jumpy, histories: sequences(&al2_none, 2), bound: 3 });
+        blocks.push(Block { name: "N=2, 2 operations (level None), one node unreachable until a chosen moment, restarts, 55-minute jumps between and after operations, <=3 deviations", cfg: jumpy, histories: sequences(&al2_none, 2), bound: 3 });
         let mut faulty = two(false);
         faulty.allow_restart = false;
         faulty.faulty_repairs = true;
